@@ -380,6 +380,31 @@ fn c02_bytes_presentation() {
 	std::mem::forget(r);
 }
 
+//@ harness: c02_bytes_presentation_6
+//@   props: C02, C01
+//@   tier: thorough
+//@   kind: bounded(payload length <= 6, content symbolic)
+//@   fn: ser::serializer::DatumSerializer::serialize_bytes + SerializerState::write_length_delimited
+//@   domain: every byte content of length 0..=6 on bytes and string nodes
+//@   post: output == spec long(len) ++ payload, nothing else
+#[kani::proof]
+#[kani::unwind(10)]
+#[kani::stub(alloc::fmt::format, stub_format)]
+fn c02_bytes_presentation_6() {
+	static BY: SchemaNode<'static> = SchemaNode::Bytes;
+	static ST: SchemaNode<'static> = SchemaNode::String;
+	let buf: [u8; 6] = kani::any();
+	let len: usize = kani::any();
+	kani::assume(len <= 6);
+	let data = &buf[..len];
+	let r = ser_with(&BY, |s| s.serialize_bytes(data));
+	check_len_delimited(&r, data);
+	std::mem::forget(r);
+	let r = ser_with(&ST, |s| s.serialize_bytes(data));
+	check_len_delimited(&r, data);
+	std::mem::forget(r);
+}
+
 //@ harness: c02_str_presentation
 //@   props: C02, C01
 //@   tier: quick
